@@ -10,7 +10,7 @@ BLANK = {
     "status": 0, "kind": "", "inv": 0, "pl": 0, "reason": "", "net": "",
     "base": "", "gen": 0, "pk": "", "err": "", "cause": "",
     "caller": 0, "k": 0, "out": "",
-    "tk": "", "phase": "", "lines": [],
+    "tk": "", "phase": "", "lines": [], "ph": "", "point": "",
     "files": [], "lf": [], "sid": "", "src": 0, "t": 0, "dur": 0, "timeoutMs": 0, "strict": True,
 }
 
@@ -274,6 +274,8 @@ def project(raw_events, scenario, bound=None):
                          inv=reqk.get(ev.get("reqid", ""), 0))
             else:
                 continue
+        elif kind in ("HookEnter", "HookLeave"):
+            o.update(e="Hook", ph="enter" if kind == "HookEnter" else "leave", point=ev.get("point", ""))
         elif kind == "NoOutcome":
             # the driver gave up waiting for an invocation's outcome (bound: timeout + reset allowance + grace + slack):
             # no action of the specification corresponds to it
